@@ -28,7 +28,11 @@ m = {
     "not_applicable": [],
     "notes": "Runtime monitoring and sanitizers only. Every verdict is 'held on what was observed'. See DESIGN.md.",
 }
+REG = [l.strip() for l in open(os.path.join(HERE, "registered.txt")) if l.strip() and not l.startswith("#")]
+m["engines"][0]["serves_properties"] = sorted(REG)
 for pid in sorted(CHECKS):
+    if pid not in REG:
+        continue
     t = MANIFEST_TEXT[pid]
     m["checks"].append({
         "property_id": pid,
@@ -42,7 +46,7 @@ for pid in sorted(CHECKS):
         "technique": t["technique"],
     })
 for pid in sorted(NOT_YET):
-    if pid not in CHECKS:
+    if pid not in REG:
         m["not_applicable"].append({"property_id": pid, "reason": NOT_YET[pid]})
 json.dump(m, open(os.path.join(VERIF, "MANIFEST.json"), "w"), indent=1)
 print("MANIFEST.json: %d checks, %d not_applicable" % (len(m["checks"]), len(m["not_applicable"])))
